@@ -488,6 +488,35 @@ def c_history(case, ctx):
         if op["op"] == "fk":
             sut(su.arm.FK, A.decode_theta(su.model, op["code"], inside=False))
             coherence(su, "step %d FK" % k)
+        elif op["op"] in ("sethome", "restore", "move"):
+            # the arm is given another tool / its original tool back / another base between two solves: the solves
+            # that follow are about the arm as it is now
+            m = su.model
+            tm = lib()["tm"]
+            if op["op"] == "sethome":
+                X = O.pose_from_taa(np.asarray(op["rel"], dtype=float))
+                T_now = as_T(sut(su.arm.getEEPos), "getEEPos before setArbitraryHome")
+                N = T_now @ X
+                if min(math.pi - O.angle(T_now[:3, :3]), math.pi - O.angle(N[:3, :3]),
+                       math.pi - O.angle((m.M @ X)[:3, :3])) < 0.05:
+                    # tool frames at (or next to) a half turn (the UR arms' tools are exact half turns): what a tool
+                    # change does there is C05's subject and runs into the open C01 finding; not done here
+                    ctx.label("history: tool change skipped (tool frame next to a half turn)")
+                    continue
+                sut(su.arm.setArbitraryHome, tm(np.ascontiguousarray(N)))
+                m.M = m.M @ X
+                ctx.label("history: tool changed")
+            elif op["op"] == "restore":
+                sut(su.arm.restoreOriginalEE)
+                m.M = m.M0.copy()
+                ctx.label("history: original tool restored")
+            else:
+                base = np.asarray(op["base"], dtype=float)
+                sut(su.arm.move, tm(base.copy()))
+                m.B = O.pose_from_taa(base)
+                m.M = m.M0.copy()          # the library re-initialises with the original tool (C05 admits both)
+                ctx.label("history: base moved")
+            su.scale = A.model_scale(m)        # (what a tool change / move leaves behind is C05's subject)
         else:
             run_request(su, op, "step %d %s" % (k, op["solver"]))
 
@@ -668,10 +697,20 @@ S_BEYOND = base_case(req=requests(goal_far("beyond")), pre=st.one_of(st.none(), 
 _any_goal = st.one_of(goal_reach(), goal_reach(), goal_between(), goal_far("beyond"), goal_far("arbitrary"),
                       goal_far("arbitrary"))
 _ops = st.one_of(st.fixed_dictionaries({"op": st.just("fk"), "code": A.theta_codes()}),
+                 st.fixed_dictionaries({"op": st.just("sethome"), "rel": A.poses6(maxnorm=1.0, tiny=False)}),
+                 st.one_of(st.fixed_dictionaries({"op": st.just("restore")}),
+                           st.fixed_dictionaries({"op": st.just("move"), "base": A.poses6(maxnorm=3.0, tiny=False)})),
+                 requests(_any_goal).map(lambda r: dict(r, op="solve")),
                  requests(_any_goal).map(lambda r: dict(r, op="solve")),
                  requests(_any_goal).map(lambda r: dict(r, op="solve")),
                  requests(_any_goal).map(lambda r: dict(r, op="solve")))
-S_HISTORY = base_case(ops=st.lists(_ops, min_size=2, max_size=4))
+_tool_op = st.one_of(st.fixed_dictionaries({"op": st.just("sethome"), "rel": A.poses6(maxnorm=1.0, tiny=False)}),
+                     st.fixed_dictionaries({"op": st.just("sethome"), "rel": A.poses6(maxnorm=1.0, tiny=False)}),
+                     st.fixed_dictionaries({"op": st.just("move"), "base": A.poses6(maxnorm=3.0, tiny=False)}))
+# a third of the histories: the arm is re-tooled / moved first, then asked for a reachable goal, then anything
+_after_tool = st.tuples(_tool_op, requests(goal_reach()).map(lambda r: dict(r, op="solve")),
+                        requests(_any_goal).map(lambda r: dict(r, op="solve"))).map(list)
+S_HISTORY = base_case(ops=st.one_of(st.lists(_ops, min_size=2, max_size=4), st.lists(_ops, min_size=2, max_size=4), _after_tool))
 
 
 @st.composite
